@@ -28,7 +28,7 @@ RULE = ('random selectors of the whole grammar compiled with random (namespaces,
 ASSUMPTIONS = [
     'the cache bound is the documented 500 compiled patterns',
     'equality of compile arguments: same pattern string, same flags, mappings with equal items (None and {} are different arguments)',
-    'mutation through private attributes of the mapping wrappers (e.g. ._d) is outside the API and not attempted',
+    'mutating the dict *inside* a mapping wrapper (wrapper._d[k] = v) is outside the API and not attempted; rebinding or deleting the wrapper\'s attributes is',
 ]
 
 NSS = [None, {}, {'a': 'urn:a'}, {'a': 'urn:a', 'b': 'urn:b'}, {'b': 'urn:b', 'a': 'urn:a'}, {'': 'urn:d'}, {'a': 'urn:b'}]
@@ -92,6 +92,21 @@ def check_frozen(node, ct):
             bad.append('%s accepted item assignment' % cls)
         except TypeError:
             pass
+        for nm in ('_hash', '_d', 'brand_new_attribute'):
+            saved = getattr(node, nm, None)
+            try:
+                setattr(node, nm, 12345)
+                bad.append('%s.%s could be assigned' % (cls, nm))
+                object.__setattr__(node, nm, saved) if nm != 'brand_new_attribute' else object.__delattr__(node, nm)
+            except (AttributeError, TypeError):
+                pass
+            if nm != 'brand_new_attribute':
+                try:
+                    delattr(node, nm)
+                    bad.append('%s.%s could be deleted' % (cls, nm))
+                    object.__setattr__(node, nm, saved)
+                except (AttributeError, TypeError):
+                    pass
         return bad
     for nm in names[:3] + ['brand_new_attribute']:
         saved = getattr(node, nm, None)
